@@ -143,7 +143,8 @@ WINDOWS = {'in': (NOW - 1000, NOW + 1000), 'startsNow': (NOW, NOW + 1000),
            'endsNow': (NOW - 1000, NOW), 'expired': (NOW - 1000, NOW - 1)}
 
 
-def make_presentation(pres, ktype, catype, principal_host, variant):
+def make_presentation(pres, ktype, catype, principal_host, variant,
+                      real_host=None):
     """-> (keypair to give the server, description dict)."""
     k1 = key('K1', ktype)
     k2 = key('K2', ktype)
@@ -162,6 +163,11 @@ def make_presentation(pres, ktype, catype, principal_host, variant):
                  'empty': []}[pres['princ']]
         if pres['princ'] == 'other' and principal_host == ADDR:
             princ = ['zz.example']
+        if pres['princ'] == 'other' and real_host not in (None,
+                                                         principal_host):
+            # host_key_alias in use: the certificate must name the alias;
+            # naming the real host (or its address) is not enough
+            princ = [[real_host], [real_host, ADDR]][variant % 2]
         if pres['type'] == 'host':
             cert = ca.generate_host_certificate(
                 k1, 'host-id', principals=princ, valid_after=va,
@@ -241,7 +247,8 @@ def attempt(case, variant=0, workdir=None):
         text.append('zz.example ssh-ed25519 AAAAnotbase64!!')   # unparsable
     kh_text = '\n'.join(text) + '\n'
 
-    kp, info = make_presentation(pres, ktype, catype, lookup_host, v)
+    kp, info = make_presentation(pres, ktype, catype, lookup_host, v,
+                                 real_host)
 
     r = Result()
     r.forms = forms
